@@ -249,10 +249,9 @@ def run_one(cfg, tape, want_trace=False):
             # one class of runs pre-empts at every line of workflows/hashing.py too: two threads of
             # one process computing database keys at the same time (the key must not depend on
             # how they interleave)
-            trace = (base._P['hashing_path'],) if cfg.get('line_hashing') else ()
-            k = Kernel(tape, policy=policy, max_steps=60000 if trace else 20000,
-                       pct_depth=1 + tape.draw(3, 'pct.depth'), pct_span=600, log_events=want_trace,
-                       trace_files=trace)
+            line_hashing = bool(cfg.get('line_hashing'))
+            k = Kernel(tape, policy=policy, max_steps=60000 if line_hashing else 20000,
+                       pct_depth=1 + tape.draw(3, 'pct.depth'), pct_span=600, log_events=want_trace)
             faults = FsFaults(tape, cfg.get('fault', 'none') if phase == 0 or cfg.get('fault') == 'mix'
                               else 'none', stats)
             faults.kernel = k
@@ -386,7 +385,13 @@ def run_one(cfg, tape, want_trace=False):
                                        f'fault-free store of {e0["name"]} before phase {phase} raised {ex0!r}')
                 for tspec in prog['threads']:
                     k.spawn(make_client(tspec), tspec['name'], pid=tspec['rpid'])
-                with base.virtual_process(lambda k=k: (k.me().pid if k.me() is not None else None), alive):
+                from contextlib import nullcontext
+                from sim import linetrace
+                lines = linetrace.LinePreemption(
+                    base._P['hashing_codes'], lambda ln, k=k: k.yield_point('line', ln)) \
+                    if line_hashing else nullcontext()
+                with base.virtual_process(lambda k=k: (k.me().pid if k.me() is not None else None), alive), \
+                        lines:
                     outcome = k.run()
             finally:
                 fs.uninstall()
